@@ -14,6 +14,8 @@ type fieldCase struct {
 	Fail    string
 	ZeroNil bool
 	Formats []string
+	Aux     map[string]string // auxiliary packages (directory -> source)
+	Imports []string
 }
 
 func fs(path ...string) *FieldSpec { return &FieldSpec{Path: path} }
@@ -139,6 +141,38 @@ func fieldCases() []fieldCase {
 		{Name: "fail_overlap_default_update", Decls: "type PFXIn struct {\n\tName string\n\tFullName string\n}\ntype PFXOut struct{ Name string }\nfunc PFXNewOut() *PFXOut { return &PFXOut{} }\n", Src: "*PFXIn", Tgt: "*PFXOut",
 			Lines: []string{"default PFXNewOut", "default:update"}, Extra: "\t// goverter:map FullName Name\n\tPFXInner(source PFXIn) *PFXOut\n",
 			Fail: "field settings (map) on a method that the default:update method bypasses"},
+		// whether a field can be written depends on the package the *field* was declared in - not on the package
+		// of the (possibly absent) type name of the struct
+		{Name: "fail_unexported_in_foreign_unnamed_struct", Src: "pfxmodel.In", Tgt: "pfxmodel.Out",
+			Aux:     map[string]string{"pfxmodel": "package pfxmodel\n\ntype In struct {\n\tName string\n\tMeta struct {\n\t\tTitle string\n\t\trev int\n\t}\n}\n\ntype Out struct {\n\tName string\n\tMeta struct {\n\t\tTitle string\n\t\trev int\n\t}\n}\n"},
+			Imports: []string{`pfxmodel "corpus/GRP/pfxmodel"`},
+			Fail:    "unexported field of an unnamed struct written down in another package", Formats: []string{"struct", "function", "variable"}},
+		{Name: "fail_unexported_in_type_defined_from_foreign_struct", Decls: "type PFXIn pfxmodel.Record\ntype PFXOut pfxmodel.Record\n", Src: "PFXIn", Tgt: "PFXOut",
+			Aux:     map[string]string{"pfxmodel": "package pfxmodel\n\ntype Record struct {\n\tName string\n\trev int\n}\n"},
+			Imports: []string{`pfxmodel "corpus/GRP/pfxmodel"`},
+			Fail:    "unexported field of a local type defined from a struct of another package", Formats: []string{"variable"}},
+		{Name: "unexported_in_local_unnamed_struct_same_package", Decls: "type PFXIn struct {\n\tName string\n\tMeta struct {\n\t\tTitle string\n\t\trev int\n\t}\n}\ntype PFXOut struct {\n\tName string\n\tMeta struct {\n\t\tTitle string\n\t\trev int\n\t}\n}\n", Src: "PFXIn", Tgt: "PFXOut",
+			Formats: []string{"variable"}},
+		{Name: "exported_fields_of_foreign_unnamed_struct", Src: "pfxmodel.In", Tgt: "pfxmodel.Out",
+			Aux:     map[string]string{"pfxmodel": "package pfxmodel\n\ntype In struct {\n\tName string\n\tMeta struct {\n\t\tTitle string\n\t\tRev int\n\t}\n}\n\ntype Out struct {\n\tName string\n\tMeta struct {\n\t\tTitle string\n\t\tRev int\n\t}\n}\n"},
+			Imports: []string{`pfxmodel "corpus/GRP/pfxmodel"`}},
+		// matchIgnoreCase is Unicode case folding, not equality of lower-cased names: the three sigmas fold together,
+		// the dotted capital I (which merely lower-cases to i) does not fold to I
+		{Name: "ignorecase_unicode_fold", Decls: "type PFXIn struct {\n\tΟΔΟΣ string\n\tN int\n}\ntype PFXOut struct {\n\tΟδος string\n\tN int\n}\n", Src: "PFXIn", Tgt: "PFXOut",
+			Lines: []string{"matchIgnoreCase"},
+			Pairs: map[string]*PairSpec{"PFXIn→PFXOut": {Fields: map[string]*FieldSpec{"Οδος": fs("ΟΔΟΣ")}}}},
+		{Name: "ignorecase_unicode_fold_ignoremissing", Decls: "type PFXIn struct {\n\tΟΔΟΣ string\n\tN int\n}\ntype PFXOut struct {\n\tΟδος string\n\tN int\n\tGone int\n}\n", Src: "PFXIn", Tgt: "PFXOut",
+			Lines: []string{"matchIgnoreCase", "ignoreMissing"},
+			Pairs: map[string]*PairSpec{"PFXIn→PFXOut": {IgnoreMissing: true, Fields: map[string]*FieldSpec{"Οδος": fs("ΟΔΟΣ")}}}},
+		{Name: "fail_ignorecase_lowercase_only_match", Decls: "type PFXIn struct {\n\tİd string\n\tN int\n}\ntype PFXOut struct {\n\tID string\n\tN int\n}\n", Src: "PFXIn", Tgt: "PFXOut",
+			Lines: []string{"matchIgnoreCase"}, Fail: "source name equals the target name only after lower-casing (no case-folding match)"},
+		// field settings on a method that hands the whole conversion to an extend function of its own signature
+		{Name: "fail_settings_on_delegating_method_map", Decls: "type PFXIn struct {\n\tName string\n\tFullName string\n}\ntype PFXOut struct{ Name string }\nfunc PFXWhole(in PFXIn) PFXOut { return PFXOut{} }\n", Src: "PFXIn", Tgt: "PFXOut",
+			Conv: []string{"extend PFXWhole"}, Lines: []string{"map FullName Name"}, Fail: "field settings (map) on a method that delegates to an extend function of the same signature"},
+		{Name: "fail_settings_on_delegating_method_ignore", Decls: "type PFXIn struct{ Name string }\ntype PFXOut struct {\n\tName string\n\tKeep int\n}\nfunc PFXWhole(in *PFXIn) *PFXOut { return nil }\n", Src: "*PFXIn", Tgt: "*PFXOut",
+			Conv: []string{"extend PFXWhole"}, Lines: []string{"ignore Keep"}, Fail: "field settings (ignore) on a method that delegates to an extend function of the same signature"},
+		{Name: "fail_settings_on_delegating_method_automap", Decls: "type PFXN struct{ Last string }\ntype PFXIn struct{ A PFXN }\ntype PFXOut struct{ Last string }\nfunc PFXWhole(in PFXIn) PFXOut { return PFXOut{} }\n", Src: "PFXIn", Tgt: "PFXOut",
+			Conv: []string{"extend PFXWhole"}, Lines: []string{"autoMap A"}, Fail: "field settings (autoMap) on a method that delegates to an extend function of the same signature"},
 		// two mapped paths of the same type through different pointers in one method
 		{Name: "path_two_ptrs_same_type", Decls: "type PFXAddr struct{ City string }\ntype PFXIn struct {\n\tHome *PFXAddr\n\tWork *PFXAddr\n\tOther *PFXAddr\n}\ntype PFXOut struct {\n\tHomeCity *string\n\tWorkCity *string\n\tOtherCity *string\n}\n", Src: "PFXIn", Tgt: "PFXOut",
 			Lines: []string{"map Home.City HomeCity", "map Work.City WorkCity", "map Other.City OtherCity"},
@@ -217,6 +251,8 @@ func FamilyField(thorough bool) []*Conv {
 				Spec:         &Spec{Pairs: fc.Pairs, ZeroOnNil: fc.ZeroNil},
 				ExpectFail:   fc.Fail != "",
 				FailNote:     fc.Fail,
+				Aux:          fc.Aux,
+				Imports:      fc.Imports,
 			}
 			out = append(out, cv)
 		}
